@@ -145,7 +145,7 @@ LeastSquares<RealType>::setDataSize(const size_t & dataSize)
   assert(estimateSize_ != 0);
   dataSize_ = static_cast<int>(dataSize);
 
-  if (Y_.rows() < static_cast<int>(dataSize)) {
+  if (Y_.rows() < static_cast<int>(dataSize) || J_.cols() != estimateSize_) {
     J_.resize(static_cast<int>(dataSize), estimateSize_);
     Y_.resize(static_cast<int>(dataSize));
     W_.resize(static_cast<int>(dataSize));
